@@ -3,6 +3,14 @@
 #include <sbepp/sbepp.hpp>
 #include <hs_sets/hs_sets.hpp>
 #include "harness_util.hpp"
+// the documented setter signature is `Set& choice(bool)`: the call returns the very object it was made on, so that
+// chained setters act on it
+template<typename S, typename R>
+static bool same_object(S& s, R&& r)
+{
+    return std::is_lvalue_reference<R>::value
+           && (static_cast<const void*>(&r) == static_cast<const void*>(&s));
+}
 #include "c15_table.inc" // generated: named-accessor tables per set
 
 template<typename T>
@@ -42,6 +50,8 @@ static std::string gen_case(const Entry (&tab)[N], unsigned long long bits, unsi
     e.set_tag(s2, b);
     os << " set=" << static_cast<unsigned long long>(*s1)
        << " setbytag=" << static_cast<unsigned long long>(*s2);
+    Set s3 = s;
+    os << " chain=" << (e.chain(s3, b) && (s3 == s1));
     rec_visitor v;
     sbepp::visit(s, v);
     os << " visit=" << v.out;
